@@ -55,6 +55,8 @@ struct Spec {
     max_twilight: u16,
     max_fdefs: u16,
     max_idefs: u16,
+    /// further tables (fvar, cvar) appended verbatim
+    extra: Vec<([u8; 4], Vec<u8>)>,
 }
 
 fn build(spec: &Spec) -> Vec<u8> {
@@ -109,10 +111,54 @@ fn build(spec: &Spec) -> Vec<u8> {
     for c in &spec.cvt {
         be16(&mut cvt, *c as i32);
     }
-    vf_core::gen::build_sfnt(
-        0x0001_0000,
-        &[(*b"head", head), (*b"hhea", hhea), (*b"maxp", maxp), (*b"hmtx", hmtx), (*b"loca", loca_b), (*b"glyf", glyf), (*b"fpgm", spec.fpgm.clone()), (*b"prep", spec.prep.clone()), (*b"cvt ", cvt)],
-    )
+    let mut tables = vec![(*b"head", head), (*b"hhea", hhea), (*b"maxp", maxp), (*b"hmtx", hmtx), (*b"loca", loca_b), (*b"glyf", glyf), (*b"fpgm", spec.fpgm.clone()), (*b"prep", spec.prep.clone()), (*b"cvt ", cvt)];
+    tables.extend(spec.extra.iter().cloned());
+    vf_core::gen::build_sfnt(0x0001_0000, &tables)
+}
+
+/// One-axis fvar (wght 100..400..900), a cvar with a single tuple (peak +1.0, all cvt
+/// entries, word deltas) and an empty gvar.
+fn fvar_cvar(deltas: &[i16], n_glyphs: u16) -> Vec<([u8; 4], Vec<u8>)> {
+    let mut fvar = vec![];
+    be32(&mut fvar, 0x0001_0000);
+    for v in [16, 2, 1, 20, 0, 8] {
+        be16(&mut fvar, v);
+    }
+    fvar.extend_from_slice(b"wght");
+    for v in [100u32 << 16, 400 << 16, 900 << 16] {
+        be32(&mut fvar, v);
+    }
+    be16(&mut fvar, 0);
+    be16(&mut fvar, 256);
+    let mut cvar = vec![];
+    be16(&mut cvar, 1);
+    be16(&mut cvar, 0);
+    be16(&mut cvar, 1); // one tuple, no shared point numbers
+    be16(&mut cvar, 14); // data offset
+    let n = deltas.len();
+    assert!(n >= 1 && n <= 64);
+    be16(&mut cvar, (2 + 2 * n) as i32); // variation data size
+    be16(&mut cvar, 0xA000); // embedded peak | private point numbers
+    be16(&mut cvar, 0x4000); // peak +1.0
+    cvar.push(0); // all cvt entries
+    cvar.push(0x40 | (n as u8 - 1)); // word deltas
+    for d in deltas {
+        be16(&mut cvar, *d as i32);
+    }
+    // skrifa takes the axis count for cvar from gvar: an empty one (no glyph has variation data)
+    let mut gvar = vec![];
+    let end = 20 + 2 * (n_glyphs as u32 + 1);
+    for v in [1, 0, 1, 0] {
+        be16(&mut gvar, v);
+    }
+    be32(&mut gvar, end);
+    be16(&mut gvar, n_glyphs as i32);
+    be16(&mut gvar, 0);
+    be32(&mut gvar, end);
+    for _ in 0..=n_glyphs {
+        be16(&mut gvar, 0);
+    }
+    vec![(*b"fvar", fvar), (*b"cvar", cvar), (*b"gvar", gvar)]
 }
 
 // opcodes
@@ -162,9 +208,117 @@ pub fn fonts() -> Vec<(String, Vec<u8>)> {
     let twilight_reader = vec![SVTCA_X, PUSHB1, 0, PUSHB1, 0, SZPS, PUSHB2, 1, 0, MD_ORIG, PUSHB2, 1, 0, MD_CUR, ADD, PUSHB1, 1, SZPS, SHPIX];
     let progs_a = vec![vec![USER_OP], vec![PUSHB1, 0, CALL, USER_OP], vec![PUSHB2, 4, 9, WS, PUSHB2, 0, 128, WCVTP, USER_OP], twilight_reader.clone()];
     let progs_b = vec![vec![USER_OP], vec![PUSHB1, 0, CALL], vec![PUSHB1, 1, CALL, PUSHB2, 4, 9, WS, USER_OP], twilight_reader];
-    let a = build(&Spec { fpgm: fpgm_a, prep: prep.clone(), glyph_programs: progs_a, cvt: vec![120, 0, 33, -7], max_storage: 6, max_twilight: 4, max_fdefs: 2, max_idefs: 1 });
-    let b = build(&Spec { fpgm: fpgm_b, prep, glyph_programs: progs_b, cvt: vec![90, 0, 12], max_storage: 8, max_twilight: 2, max_fdefs: 2, max_idefs: 1 });
-    vec![("synth-idef-a.ttf".to_string(), a), ("synth-idef-b.ttf".to_string(), b)]
+    let a = build(&Spec { fpgm: fpgm_a, prep: prep.clone(), glyph_programs: progs_a, cvt: vec![120, 0, 33, -7], max_storage: 6, max_twilight: 4, max_fdefs: 2, max_idefs: 1, extra: vec![] });
+    let b = build(&Spec { fpgm: fpgm_b, prep, glyph_programs: progs_b, cvt: vec![90, 0, 12], max_storage: 8, max_twilight: 2, max_fdefs: 2, max_idefs: 1, extra: vec![] });
+    // C: a variable font with cvar whose glyph programs read (large) control values along
+    // both axes: stale cvt contents surviving a reconfigure would move points.
+    const SVTCA_Y: u8 = 0x00;
+    let fpgm_c = vec![PUSHB1, 0, FDEF, SVTCA_X, PUSHB2, 1, 32, SHPIX, ENDF];
+    let prep_c = vec![PUSHB1, 2, MPPEM, WS];
+    let progs_c = vec![
+        vec![SVTCA_Y, PUSHB2, 0, 0, MIAP0],
+        vec![SVTCA_X, PUSHB2, 1, 2, MIAP0, SVTCA_Y, PUSHB2, 2, 3, MIAP0],
+        vec![SVTCA_Y, PUSHB2, 2, 4, MIAP0 | 1, SVTCA_X, PUSHB2, 0, 1, MIAP0 | 1],
+    ];
+    let c = build(&Spec {
+        fpgm: fpgm_c,
+        prep: prep_c,
+        glyph_programs: progs_c,
+        cvt: vec![700, 30000, -20000, 555, 12345],
+        max_storage: 4,
+        max_twilight: 2,
+        max_fdefs: 1,
+        max_idefs: 0,
+        extra: fvar_cvar(&[40, -300, 500, 0, -7], 4),
+    });
+    vec![("synth-idef-a.ttf".to_string(), a), ("synth-idef-b.ttf".to_string(), b), ("synth-cvar.ttf".to_string(), c)]
+}
+
+/// Directed check for a variable font with cvar: a reused instance, whatever size and
+/// location it was configured for before (including sizes far beyond the usual range,
+/// which leave large scaled control values behind), must equal a fresh one in retained
+/// state and in every drawing.
+pub fn cvar_probe(ctx: &mut Ctx, fonts: &[Fnt]) {
+    let Some(ci) = fonts.iter().position(|f| f.name == "synth-cvar.ttf") else {
+        ctx.inconclusive("synthetic cvar font did not load");
+        return;
+    };
+    let f = &fonts[ci];
+    if f.axes != 1 {
+        ctx.inconclusive("synthetic cvar font has no axis");
+        return;
+    }
+    let others: Vec<usize> = fonts.iter().enumerate().filter(|(i, o)| *i != ci && o.name.starts_with("synth-")).map(|(i, _)| i).collect();
+    let prev_sizes: [Option<f32>; 6] = [None, Some(9.0), Some(113.0), Some(700.0), Some(3000.0), Some(20000.0)];
+    let locs: [i16; 5] = [0, 16384, -16384, 8192, 1];
+    let mut cvar_effect_seen = false;
+    for (pi, prev_size) in prev_sizes.iter().enumerate() {
+        for (li, prev_loc) in locs.iter().enumerate() {
+            // previous configuration: mostly the font itself, sometimes another synthetic font
+            let pf = if (pi + li) % 4 == 3 && !others.is_empty() { &fonts[others[(pi + li) % others.len()]] } else { f };
+            for size in [Some(8.0f32), Some(16.0), Some(200.0), None] {
+                for loc in locs {
+                    let t = (pi * 7 + li * 3) % N_TARGETS;
+                    let what = format!("synth-cvar:prev={}:{:?}@{}->{:?}@{}:t{}", pf.name, prev_size, prev_loc, size, loc, t);
+                    let r = ctx.run_case(&|| what.clone(), None, &|| {
+                        let mut out: Vec<(String, Value)> = vec![];
+                        let mut cmp = 0u64;
+                        let sz = |s: &Option<f32>| s.map(Size::new).unwrap_or(Size::unscaled());
+                        let pc: Vec<_> = if pf.axes == 1 { crate::ncoords(&[*prev_loc]) } else { vec![] };
+                        let c = crate::ncoords(&[loc]);
+                        let Ok(mut reused) = HintingInstance::new(&pf.outlines, sz(prev_size), LocationRef::new(&pc), pf.options(0, t)) else { return (out, cmp, false, true) };
+                        for g in 0..pf.nglyphs {
+                            if let Some(gl) = pf.outlines.get(GlyphId::new(g)) {
+                                let _ = gl.draw(DrawSettings::hinted(&reused, false), &mut Rec::default());
+                            }
+                        }
+                        if reused.reconfigure(&f.outlines, sz(&size), LocationRef::new(&c), f.options(0, t)).is_err() {
+                            return (out, cmp, false, true);
+                        }
+                        let Ok(fresh) = HintingInstance::new(&f.outlines, sz(&size), LocationRef::new(&c), f.options(0, t)) else { return (out, cmp, false, true) };
+                        let Ok(at_default) = HintingInstance::new(&f.outlines, sz(&size), LocationRef::default(), f.options(0, t)) else { return (out, cmp, false, true) };
+                        // the workload must actually depend on cvar: away from the default the cvt differs
+                        let effect = loc != 0 && fresh.verif_state() != at_default.verif_state();
+                        cmp += 1;
+                        if reused.verif_state() != fresh.verif_state() {
+                            let (x, y) = (reused.verif_state().unwrap_or_default(), fresh.verif_state().unwrap_or_default());
+                            let which: Vec<String> = x.lines().zip(y.lines()).filter(|(p, q)| p != q).map(|(p, _)| p.split('=').next().unwrap_or("").to_string()).collect();
+                            out.push((format!("diff:d-reused-state:{}", what), json!({"differing_components": which})));
+                        }
+                        for g in 0..f.nglyphs {
+                            let Some(gl) = f.outlines.get(GlyphId::new(g)) else { continue };
+                            let mut p = vec![];
+                            let o1 = draw_obs(&gl, &Sel::Hinted { inst: &fresh, pedantic: false }, None, &mut p);
+                            let o2 = draw_obs(&gl, &Sel::Hinted { inst: &reused, pedantic: false }, None, &mut p);
+                            cmp += 1;
+                            if o1 != o2 {
+                                out.push((format!("diff:d-reused-instance:{}:gid={}", what, g), describe_diff(&o1, &o2)));
+                            }
+                        }
+                        (out, cmp, effect, false)
+                    });
+                    match r {
+                        Ok((viol, cmp, effect, failed)) => {
+                            ctx.evals(cmp);
+                            ctx.count("synth_cvar_probe_comparisons", cmp);
+                            if failed {
+                                ctx.count("synth_cvar_probe_instance_failed", 1);
+                            }
+                            cvar_effect_seen |= effect;
+                            for (s, d) in viol {
+                                ctx.violation(&s, d, None);
+                            }
+                        }
+                        Err(p) => ctx.judge_panic(&p, "synthetic cvar probe", json!({"case": what}), None),
+                    }
+                }
+            }
+        }
+    }
+    ctx.extra.insert("synth_cvar_font_cvt_depends_on_location".into(), json!(cvar_effect_seen));
+    if !cvar_effect_seen {
+        ctx.inconclusive("synthetic cvar font: the retained state never differed between the default and another location, so the cvar probe observed nothing");
+    }
 }
 
 /// Directed check of reconfigure A -> B and B -> A on the synthetic fonts for every target and size.
@@ -242,3 +396,4 @@ pub fn idef_probe(ctx: &mut Ctx, fonts: &[Fnt]) {
         ctx.inconclusive("synthetic font A did not end up with an active IDEF: the IDEF-retention probe observed nothing");
     }
 }
+
